@@ -86,6 +86,30 @@ Proof. exact CppLaws.cpp_item. Qed.
 Goal True. idtac "ASSUMPTIONS-OF C14_reader_directive_with_continuations_is_one_item". Abort.
 Print Assumptions C14_reader_directive_with_continuations_is_one_item.
 
+(* ... and at next(): the directive is handed out WHOLE.  next() cuts statement lines at ';' but never a directive:
+   whatever the directive contains -- a ';' in a macro body included -- it is one item with its exact span. *)
+Theorem C14_reader_directive_is_one_item_at_next_whatever_it_contains :
+  forall free omp ign er p0 ps lastl src lc,
+    CppLaws.plain_pull free omp ign (p0 ++ ["\"%char]) ->
+    Text.starts_with ["#"%char] (Text.lstrip (p0 ++ ["\"%char])) = true ->
+    Forall (fun p => CppLaws.plain_pull free omp ign (p ++ ["\"%char])) ps -> CppLaws.plain_pull free omp ign lastl ->
+    Text.ends_with_char "\"%char lastl = false -> Text.strip (p0 ++ List.concat ps ++ lastl) <> [] ->
+    Reader.next_item (Reader.mkRst ((p0 ++ ["\"%char]) :: CppLaws.cont_lines ps ++ lastl :: src) [] lc [] free omp ign er)
+    = (Some (Reader.RCpp (Text.strip (p0 ++ List.concat ps ++ lastl)) (S lc) (S (S lc) + List.length ps)),
+       Reader.mkRst src [] (S (S lc) + List.length ps) [] free omp ign er).
+Proof. exact CppLaws.cpp_directive_is_one_item_at_next. Qed.
+Goal True. idtac "ASSUMPTIONS-OF C14_reader_directive_is_one_item_at_next_whatever_it_contains". Abort.
+Print Assumptions C14_reader_directive_is_one_item_at_next_whatever_it_contains.
+
+Example C14_example_directive_with_semicolon :
+  let t := String.list_ascii_of_string in
+  Reader.read_source [t "x = 1; y = 2"%string; t "#define TWICE(a) a; a"%string; t "z = 3"%string] true false true
+  = [Reader.RLine (t "x = 1"%string) None None 1 1; Reader.RLine (t "y = 2"%string) None None 1 1;
+     Reader.RCpp (t "#define TWICE(a) a; a"%string) 2 2; Reader.RLine (t "z = 3"%string) None None 3 3].
+Proof. vm_compute. reflexivity. Qed.
+Goal True. idtac "ASSUMPTIONS-OF C14_example_directive_with_semicolon". Abort.
+Print Assumptions C14_example_directive_with_semicolon.
+
 Theorem C14_reader_directive_on_one_line :
   forall free omp ign er l src lc fifo,
     CppLaws.plain_pull free omp ign l -> l <> [] -> Text.starts_with ["#"%char] (Text.lstrip l) = true ->
